@@ -338,7 +338,11 @@ pub fn run(args: &Args) {
     // (A) all partitions: for a few inputs per length n <= 6 every composition, without and with an empty
     // tick between chunks.
     let inputs_per_len = args.budget(20, 120, 1);
-    let max_n = if args.tier == Tier::Miri { 3 } else { 6 };
+    let max_n = match args.tier {
+        Tier::Miri => 3,
+        Tier::Quick => 6,
+        Tier::Thorough => 8,
+    };
     for fam in single {
         for n in 1..=max_n {
             for _ in 0..inputs_per_len {
@@ -405,7 +409,7 @@ pub fn run(args: &Args) {
         "Six sliced! programs (batch + two snapshots + state; atomic batch + atomic snapshot + state; keyed \
          batch + keyed snapshot; two batched inputs + optional snapshot + state_null buffer; bounded-value keyed \
          singleton batch; state_null optional) compiled by generate_embedded and driven slice by slice. (A) for \
-         20 (quick) / 120 (thorough) random inputs per length 1..6 with distinct values: every composition, without \
+         20 (quick) / 120 (thorough) random inputs per length 1..6 (thorough: 1..8) with distinct values: every composition, without \
          and with an empty tick between chunks; for the two-input program every pair of compositions (|a|<=4, \
          |b|<=3, b shifted 0-2 ticks). (B) random partitions of 5-30 items over 2-10 ticks. Each slice emits \
          what its hooks revealed; judged: batches partition the input in order (per key for keyed), snapshots \
